@@ -21,6 +21,18 @@ def c05(c):
                       "the engine's Execute hook is assumed to run the closure it is given exactly once (the harness's three executors do)"]
     args = ["-focus", "conn", "-n", n(c, 2500, 40000), "-depth", n(c, 7, 11), "-maxenum", n(c, 3000, 120000)]
     c.harness("serializer", args, overlay=True, model=MODEL, timeout=3000)
+    # end-to-end tier for the clause "HTTP handlers and WebSocket callbacks of one connection never overlap, and close handling
+    # runs after all work queued before it": real nbhttp engines (every IOMod x epoll mode x executor), raw HTTP/1.1 and RFC 6455 clients
+    c.trusted += ["Go harness cmd/overlap (end-to-end tier, no model): real nbhttp engines on loopback, raw clients written in the harness; every callback "
+                  "logs its entry under a per-connection mutex that also keeps the in-callback count, so overlap and start order are exact; only "
+                  "'a callback is missing / the connection did not finish' depends on time (such a cell is run again with four times the margins)"]
+    c.assumptions += ["end-to-end tier: connections transferred to the poller by Upgrade (BlockingModTrasferConnToPoller) run the open handler outside the "
+                      "connection's job queue and, under EPOLLONESHOT, the message callbacks too; the harness reports those under the signatures "
+                      "*-transferred-* (same causes as the three C14 findings recorded for the unchanged tree)"]
+    oargs = ["-n", n(c, 6, 150)]
+    if c.tier == "thorough":
+        oargs += ["-full", "-ws", "8", "-http", "4"]
+    c.harness("overlap", oargs, overlay=True, timeout=3000)
     c.finish()
 
 
@@ -43,7 +55,7 @@ def c19(c):
 
 CHECKS = {"C05": c05, "C19": c19}
 MODELS = [MODEL]
-HARNESSES = [("serializer", True), ("taskpool", True)]
+HARNESSES = [("serializer", True), ("taskpool", True), ("overlap", True)]
 
 MANIFEST = {
     "C05": dict(
@@ -59,10 +71,19 @@ MANIFEST = {
              "overlay's cooperative scheduler with 1-6 submitters x 1-8 jobs, racing Close, panicking and re-entrant jobs, ExecuteLen observers, the three "
              "executors; every critical section and job event becomes a model action in the order it happened and Execute's result, head/drainer start, "
              "the job started, drainer exit, ExecuteLen, len/cap of the list and the final start order are compared; the implementation-only oracle "
-             "(no overlap, FIFO by lock order, exactly once, closed semantics, jobs after a panic, no stuck thread, empty list at the end) runs on the same cases.",
+             "(no overlap, FIFO by lock order, exactly once, closed semantics, jobs after a panic, no stuck thread, empty list at the end) runs on the same cases. "
+             "End-to-end tier for the consequence clause (harness cmd/overlap, oracle only): real nbhttp engines in every IOMod (non-blocking, blocking, mixed, "
+             "blocking with the upgraded connection transferred to the poller) x epoll mode (LT, ET, ET+ONESHOT, ET with asynchronous reads) x executor (default "
+             "task pool, small pool, goroutine per call, 3-worker pool behind ServerExecutor), several connections at once; raw HTTP/1.1 clients pipeline requests whose "
+             "handlers sleep / yield / block, raw RFC 6455 clients write text / binary (fragmented) messages, Ping, Pong and Close frames back to back while the callback "
+             "of an earlier frame is held; every callback (OnOpen, OnMessage, OnDataFrame, ping / pong / close handler, OnClose, the engine's close hook, HTTP handlers) "
+             "logs its entry under a per-connection mutex: never two in progress, entries in wire order, close exactly once and after everything queued before it "
+             "(peer half-close mid-handler, Close frame, Close() inside a callback or from another goroutine, Connection: close).",
         note="Trusted: Coq kernel, extraction, OCaml driver, Go harness, the cooperative scheduler and the atomicity reduction (code between Unlock and the next "
              "Lock is goroutine-local; by inspection). The nbhttp consequence (handlers/callbacks of one connection never overlap) follows from nbhttp routing "
-             "them through Execute and is exercised by C10/C14, not here.",
+             "them through Execute; it is checked end to end by cmd/overlap (sampled schedules of real engines, no theorem). Connections transferred to the poller "
+             "by Upgrade (BlockingModTrasferConnToPoller) are outside the theorem's instance: their open handler (and, under EPOLLONESHOT, message callbacks) bypass "
+             "the job queue - reported under the *-transferred-* signatures.",
         design="4/C05, Appendix F, G.2, H.1, H.4"),
     "C19": dict(
         technique="Coq proof (counter/conservation invariant of the task pool LTS with task identities, all schedules; Timer.Async as an instance of the "
